@@ -27,6 +27,7 @@ func emitRest(dir string, t *Tables) {
 	emitWalk(dir, thePkg)
 	emitBuild(dir, thePkg)
 	emitCreate(dir, thePkg)
+	emitClBuild(dir, thePkg)
 	emitEffects(dir, thePkg)
 	emitSchema(dir, thePkg, theRepo)
 	emitRules(dir, t)
